@@ -36,7 +36,8 @@ ASSUMPTIONS = ["no user constraint is installed besides the collapses: mystic ap
                "(chain(*conditions)(constraints)), so a user constraint that does not preserve a relation (a pin on a tied index, rounding of a "
                "fixed value) would legitimately override it",
                "with strict ranges the relations a collapse may impose are kept box-compatible (fixed targets inside the box, uniform box when "
-               "pairs may be tied), the precondition C01-C03 state for constraints",
+               "pairs may be tied, no CollapseCost -- its applied form re-draws at random in intervals that reach to infinity), the precondition "
+               "C01-C03 state for constraints",
                "CollapseAs(offset=True) is compared at detector level only: mystic applies it as x[j] = x[i] + True, which is not the 'equal to its "
                "partner' relation the property states for applied collapses",
                "when an index is both fixed (CollapseAt) and tied (CollapseAs) by applied collapses the two exact relations can only hold jointly if "
@@ -352,6 +353,19 @@ def make_box_compatible(plan):
     b = next((o for o in plan['ops'] if o['op'] == 'set' and o['what'] == 'bounds'), None)
     if b is None or not b.get('arg'): return
     lo, hi = b['arg']['lo'], b['arg']['hi']
+    # an applied CollapseCost re-draws a parameter at random inside the kept intervals (clip=False), which reach to +-inf:
+    # not a deterministic, box-compatible constraint -- it is installed only on runs without strict ranges
+    def drop_cost(t):
+        if t['t'] in ('And', 'Or', 'When'):
+            kids = [drop_cost(k) for k in t['of']]
+            kids = [k for k in kids if k is not None]
+            if not kids: return None
+            return dict(t, of=kids)
+        return None if t['t'] == 'CollapseCost' else t
+    t2 = drop_cost(plan['tree'])
+    if t2 is None:
+        plan['ops'] = [o for o in plan['ops'] if o is not b]; return
+    plan['tree'] = t2
     lv = list(tree_leaves(plan['tree']))
     if any(l['t'] == 'CollapseAs' for l in lv):
         L, H = min(lo), max(hi)
